@@ -127,7 +127,7 @@ theorem finishFail_invM {hist : List Ev} {s : S} {it : Item} {rest : List Item} 
   intro q p m; rw [hold_cons]
   cases it with
   | ackI pid msg => simp only [finishFail]; omega
-  | recI pid msg => simp only [finishFail, itemW]; exact waitRel_hold s pid msg rest q p m
+  | recI pid msg => simp only [finishFail]; omega
   | compI pid msg => simp only [finishFail, itemW]; exact waitRel_hold s pid msg rest q p m
 
 theorem drain_invM {hist : List Ev} (f : S → Item → S) (hf : ∀ s it rest, InvM hist s (it :: rest) → InvM hist (f s it) rest) :
@@ -167,15 +167,12 @@ theorem recItems_rec (q0 : List (Nat × Nat)) (p m : Nat) : (q0.map fun x => Ite
   | nil => rfl
   | cons x xs ih => rw [List.map_cons, countP_cons_toNat, ih]; simp only [qcM, countP_cons_toNat, isRecM]
 
-theorem hold_append_comp (s : S) (r0 q0 : List (Nat × Nat)) (rem : List Item) (q p m : Nat) :
-    hold { s with ackQ := [], recQ := [], compQ := [] } (((r0.map fun x => Item.recI x.1 x.2) ++ (q0.map fun x => Item.compI x.1 x.2)) ++ rem) q p m
-      ≤ hold { s with recQ := r0, compQ := q0 } rem q p m := by
-  simp only [hold, storedM, waitM, List.countP_append, compItems_ack, compItems_rec, compItems_comp, recItems_ack, recItems_comp, recItems_rec]
+theorem hold_append_comp (s : S) (q0 : List (Nat × Nat)) (rem : List Item) (q p m : Nat) :
+    hold { s with ackQ := [], recQ := [], compQ := [] } ((q0.map fun x => Item.compI x.1 x.2) ++ rem) q p m
+      ≤ hold { s with compQ := q0 } rem q p m := by
+  simp only [hold, storedM, waitM, List.countP_append, compItems_ack, compItems_rec, compItems_comp]
   simp only [qcM, List.countP_nil]
   split <;> split <;> omega
-
-
-
 
 def InvMsg (hist : List Ev) (s : S) : Prop := InvM hist s s.batch
 
@@ -202,8 +199,8 @@ theorem msg_step (hist : List Ev) (s : S) (e : Ev) (s' : S) (I : InvMsg hist s) 
       apply drain_invM (fun s it => finishFail s it) (fun s it rest => finishFail_invM) _ s0.batch
       refine invM_step I ?_
       intro q p m
-      have h1 : hold { s0 with ackQ := [], recQ := [], compQ := [] } (((s0.recQ.map fun x => Item.recI x.1 x.2) ++ (s0.compQ.map fun x => Item.compI x.1 x.2)) ++ s0.batch) q p m
-          ≤ hold s0 s0.batch q p m := hold_append_comp s0 s0.recQ s0.compQ s0.batch q p m
+      have h1 : hold { s0 with ackQ := [], recQ := [], compQ := [] } ((s0.compQ.map fun x => Item.compI x.1 x.2) ++ s0.batch) q p m
+          ≤ hold s0 s0.batch q p m := hold_append_comp s0 s0.compQ s0.batch q p m
       have h2 : hold s0 s0.batch q p m ≤ hold s s.batch q p m := by
         have := e7 p m
         simp only [hold, storedM, e1, e2, e3, e5, e6]
